@@ -167,13 +167,20 @@ func runC11(c *Ctx) {
 				}
 			}
 		}
-		// media type strings must be valid UTF-8 as well
+		// media type strings must be valid UTF-8 as well (and have the type/subtype shape)
 		if i%9 == 0 {
 			mt := append([]byte("a/b"), data...)
+			if i%18 == 0 {
+				// inside the media type grammar (rules validate the shape too since fix afaa1e5)
+				const ok = "abcXYZ019!#$%&'*+.^_`|~{}-"
+				for j := 3; j < len(mt); j++ {
+					mt[j] = ok[int(mt[j])%len(ok)]
+				}
+			}
 			for _, es := range [][]Ev{{{K: "media", S: string(mt), Data: []byte{1}}}, {{K: "mb", S: string(mt)}, {K: "ac", N: 1, B: false}, {K: "ad", Data: []byte{1}}}} {
 				doc := wrapDoc(es)
 				rej, _ := c.addRulesCase(rc, doc)
-				wantW := utf8.Valid(mt)
+				wantW := utf8.Valid(mt) && wfMediaType(string(mt))
 				c.Count(evsString(doc), true)
 				if (rej < 0) != wantW {
 					c.Fail(Replay{Kind: "events", Key: fmt.Sprintf("C11/media-type/want-accept=%v", wantW),
